@@ -1119,6 +1119,11 @@ class FDE:
                     if key not in self.class_objs:
                         self.class_objs[key] = Opaque('sentinel %s' % e.id)       # a module-level `NAME = object()`: one unique object, compared by identity
                     return self.class_objs[key]
+                if isinstance(g, ast.Call) and unparse(g.func) in ('types.MappingProxyType', 'MappingProxyType') and len(g.args) == 1 and not g.keywords and fi.module.constant_binding(e.id) is g:
+                    key = ('global', fi.module.relpath, e.id)
+                    if key not in self.class_objs:
+                        self.class_objs[key] = self._ev(g, {}, fi)      # a read-only view of a dict display: a lookup table
+                    return self.class_objs[key]
                 if isinstance(g, (ast.Dict, ast.List, ast.Tuple, ast.Constant, ast.Set)):
                     key = ('global', fi.module.relpath, e.id)
                     if key not in self.class_objs:
@@ -1691,6 +1696,8 @@ class FDE:
                         raise Unsupported('starmap over non-sequence elements')
                     yield self._apply(fn_, list(x_), {}, e)
             return star_() if lazy_ else list(star_())
+        if unparse(f) in ('types.MappingProxyType', 'MappingProxyType') and not (isinstance(f, ast.Name) and f.id in env) and len(args) == 1 and not kwargs and isinstance(args[0], dict):
+            return args[0]       # a read-only view: reads behave like the dict itself (writes through the view do not exist)
         if unparse(f) in ('itertools.count', 'count') and not (isinstance(f, ast.Name) and f.id in env) and len(args) <= 2 and not kwargs and all(isinstance(a_, int) and not isinstance(a_, bool) for a_ in args) \
                 and (fi is None or isinstance(f, ast.Attribute) or str(fi.module.imports.get(f.id, '')).startswith('itertools')):
             def count_(start=0, step=1):
